@@ -127,3 +127,12 @@ def r03_lower(ctx):
 def run(ctx):
     from runner import collect
     return collect(ctx, r03_stack, r03_lower)
+
+
+THOROUGH_FLOORS = {'E03.1': 8}
+
+
+def run_thorough(ctx):
+    from runner import collect
+    from rules import e2e
+    return collect(ctx, e2e.e03)
